@@ -118,13 +118,34 @@ def dec_model_res(line):
 
 
 def impl_infer(headers):
-    """('ok', (ty, dv)) / ('err', kind) / ('oou', what) under CLI semantics"""
-    from rpft.parsers.common.model_inference import model_from_headers_rec
-    with warnings.catch_warnings():
-        warnings.simplefilter("ignore")
-        r = run_cli_mode(model_from_headers_rec, "sheet", list(headers))
+    """('ok', (ty, dv)) / ('err', kind) / ('oou', what) under CLI semantics.
+    'oou' = the call met a type outside the universe of the mirror: in its result, or as the
+    annotation of a column whose type model_from_headers_rec then discards (only the last entry
+    of an index-spread list gives the element type).  The mirror says Err EUnknownType for every
+    annotation it cannot name, so it cannot tell these cases from an error (Infer.v, header)."""
+    from rpft.parsers.common import model_inference as mi
+    met = []
+    orig = mi.type_from_string
+
+    def spy(string):
+        t = orig(string)
+        try:
+            canon_type(t)
+        except OutOfUniverse as e:
+            met.append(str(e))
+        return t
+
+    mi.type_from_string = spy
+    try:
+        with warnings.catch_warnings():
+            warnings.simplefilter("ignore")
+            r = run_cli_mode(mi.model_from_headers_rec, "sheet", list(headers))
+    finally:
+        mi.type_from_string = orig
     if r[0] != "ok":
         return ("err", r[1])
+    if met:
+        return ("oou", met[0])
     try:
         return ("ok", (canon_type(r[1][0]), canon_default(r[1][1])))
     except OutOfUniverse as e:
@@ -742,8 +763,22 @@ def oracle_infer_headers(schema):
     return True, None
 
 
-def stable_partition(hs):
-    return [h for h in hs if "." not in h] + [h for h in hs if "." in h]
+def probe_by_field_name():
+    """does this tree look for the header separator in the field name only (True: the repaired
+    model_from_headers_rec) or in the whole header, annotations included (False)?  Probed on the
+    implementation, independently of the translator's probe (the two are compared in run)."""
+    from rpft.parsers.common import model_inference as mi
+    r = run_cli_mode(lambda: list(mi.model_from_headers_rec("probe", ["x=a.b"])[0].__fields__.keys()))
+    return r[0] == "ok" and r[1] == ["x"]
+
+
+def is_nested(h, by_name):
+    from rpft.parsers.common.rowparser import get_field_name
+    return "." in (get_field_name(h) if by_name else h)
+
+
+def stable_partition(hs, by_name=False):
+    return [h for h in hs if not is_nested(h, by_name)] + [h for h in hs if is_nested(h, by_name)]
 
 
 def oracle_content_independent(schema, headers, rowsets):
@@ -788,6 +823,15 @@ def run(ctx):
     def ask(fn, arg):
         return m.ask(f"({ENG} {fn} {arg})")
 
+    # which of the two mirrored behaviours does this tree have?  (the regenerated constant
+    # inf_nested_by_field_name of the model vs an independent probe of the implementation)
+    by_name = probe_by_field_name()
+    stats["nested_by_field_name"] = by_name
+    if m:
+        mflag = parse_sexp(ask(12, "0")) == 1
+        if mflag != by_name:
+            ctx.disagree("inf_nested_by_field_name (translator probe) vs harness probe", "x=a.b", mflag, by_name)
+
     # -------------------------------------------------- 1. schemas of the family
     n_schemas = (30000 if thorough else 800) * ctx.scale
     dist = dict(valid=0, dot_default=0, depth={}, headers=0, rows=0, rows_ok=0, rows_error_under_both=0,
@@ -810,6 +854,8 @@ def run(ctx):
 
         if dotted:
             # full-strength reading of "f=v carries a default": v may contain a period
+            # (C18_dot_default_decided: holds on a tree that looks for the header separator in the
+            # field name only, refuted on a tree that looks in the whole header)
             dist["dot_default"] += 1
             ok, det = oracle_infer_headers(schema)
             if not ok:
@@ -817,12 +863,17 @@ def run(ctx):
                                 f"headers {det['headers']!r}: inferred {det['inferred']} but the schema denotes {det['denoted']}",
                                 dict(fn="infer_headers", schema=schema))
             if m:
-                mo = dec_model_res(ask(1, enc_headers(hs)))
-                io_ = impl_infer(hs)
-                compare_infer(ctx, hs, mo, io_)
                 if parse_sexp(ask(8, enc_fields(schema))) == 1:
                     ctx.disagree("wf_schema accepts a default containing the header separator", repr(hs), 1, 0)
-            continue
+                if parse_sexp(ask(14, enc_fields(schema))) != 1:
+                    ctx.disagree("generator produced a dot-default schema outside wf_schema_full", repr(hs), 0, 1)
+            if not by_name:
+                if m:
+                    mo = dec_model_res(ask(1, enc_headers(hs)))
+                    io_ = impl_infer(hs)
+                    compare_infer(ctx, hs, mo, io_)
+                continue
+            # on a tree with the field-name behaviour these schemas are ordinary members of the family
 
         dist["valid"] += 1
         schema_features(schema, feats)
@@ -830,11 +881,12 @@ def run(ctx):
         dist["homogeneous"] += hom
 
         # (b) oracle infer_headers on the implementation
-        ok, det = oracle_infer_headers(schema)
-        if not ok:
-            v.failing_input("inferred-model-differs",
-                            f"headers {det['headers']!r}: inferred {det['inferred']} but the schema denotes {det['denoted']}",
-                            dict(fn="infer_headers", schema=schema))
+        if not dotted:
+            ok, det = oracle_infer_headers(schema)
+            if not ok:
+                v.failing_input("inferred-model-differs",
+                                f"headers {det['headers']!r}: inferred {det['inferred']} but the schema denotes {det['denoted']}",
+                                dict(fn="infer_headers", schema=schema))
         io_ = impl_infer(hs)
 
         # (a) correspondence: vocabulary of the theorem and the mirror itself
@@ -847,7 +899,7 @@ def run(ctx):
             md = (dec_ty(x[0]), dec_dv(x[1]))
             if md != py_denote(schema):
                 ctx.disagree("denote (Coq) vs harness denotation", repr(hs), repr(md), repr(py_denote(schema)))
-            wf = parse_sexp(ask(8, es)) == 1
+            wf = parse_sexp(ask(14 if dotted else 8, es)) == 1
             dist["model_says_wf"] += wf
             if not wf:
                 ctx.disagree("generator produced a schema outside wf_schema", repr(hs), 0, 1)
@@ -857,7 +909,11 @@ def run(ctx):
         # header order: the stable leaf/dotted partition gives the same model (theorem
         # infer_partition); any permutation gives the same model up to field order when
         # every index-spread list is homogeneous
-        part = stable_partition(hs)
+        part = stable_partition(hs, by_name)
+        if m and it % 7 == 0:
+            mp = [dec_str(x) for x in parse_sexp(ask(13, enc_headers(hs)))]
+            if mp != part:
+                ctx.disagree("stable_partition (Coq) vs harness", repr(hs), repr(mp), repr(part))
         if part != hs:
             if impl_infer(part) != io_:
                 v.failing_input("partition-changes-model", f"{hs!r} vs {part!r}", dict(fn="partition", headers=hs))
@@ -1028,7 +1084,8 @@ def run(ctx):
         "Python expression syntax inside List[...] beyond NAME and nested List[...] (whitespace, parentheses, quotes) is not modelled",
         "VFloat carries the literal; the comparison evaluates it with the running interpreter's float()",
         "model class names (name.title()+field.title()) are outside the compared projection",
-        "inferred_parses_same is decided on the implementation only (no Gallina RowParser in this branch): row.dict() under the inferred model vs a hand-built pydantic model",
+        "inferred_parses_same: the Coq statement quantifies over an arbitrary row parser; the clause is decided on the implementation only (row.dict() under the inferred model vs a hand-built pydantic model, through RowParser/CellParser and ContentIndexParser)",
+        "type names with a module path (pydoc.locate imports modules: `builtins.int`, `typing.List`) can only be written on a tree that looks for the header separator in the field name; they are not modelled (Err EUnknownType in the mirror) and the generators do not produce them",
     ]
 
 
@@ -1086,7 +1143,7 @@ def replay(rep):
         sc = fix_schema(r["schema"])
         return oracle_content_independent(sc, py_headers_of(sc), r["rowsets"])[0]
     if fn == "partition":
-        return impl_infer(stable_partition(r["headers"])) == impl_infer(r["headers"])
+        return impl_infer(stable_partition(r["headers"], probe_by_field_name())) == impl_infer(r["headers"])
     if fn == "permutation":
         return sort_fields(impl_infer(r["headers"])) == sort_fields(impl_infer(r["perm"]))
     if fn == "repeat":
